@@ -90,6 +90,7 @@ func (ex *Exec) verifyTop() {
 		ex.topRecovered = &r
 	}
 	entry := st.clone()
+	ex.entryState = entry
 	envPre := &SpecEnv{vars: fr.params, st: entry, lst: entry, pkg: fn.Pkg.Pkg, topOld: entry.top}
 	envPre.old = envPre
 	for _, g := range ex.prog.Contracts.Globals {
@@ -137,6 +138,13 @@ func (ex *Exec) verifyTop() {
 			isErr := And(ex.implementsTerm(IfDyn(pv), errorType), Not(ex.implementsTerm(IfDyn(pv), ex.runtimeErrorType())), Neq(IfVal(pv), IntLit(0)))
 			o := vc.oblige("panic", "panic-is-error:"+strings.Trim(p.text, "\""), p.cond, isErr, p.where)
 			o.Descr = "a panic leaving this function carries an error value (not a runtime.Error, not a string)"
+			if len(c.Exsures) > 0 {
+				env := &SpecEnv{vars: fr.params, st: p.st, lst: p.st, pkg: fn.Pkg.Pkg, old: envPre, topOld: entry.top}
+				for _, e := range c.Exsures {
+					oe := vc.oblige("postcondition", e.Name()+"@"+strings.Trim(p.text, "\""), p.cond, ex.evalBool(e.E, env), e.Where)
+					oe.Descr = e.Text
+				}
+			}
 			continue
 		}
 		if len(c.Panics) > 0 {
